@@ -148,7 +148,8 @@ def _work(item) -> Dict[str, Any]:
     if variant == 'build':
         # settings of lags/leads (concrete) and converter bookkeeping
         for kw, want in (({'lags': 5}, (5, base.LEADS)), ({'leads': 4}, (base.LAGS, 4)), ({'min_lags': 1}, (max(base.LAGS, 1), base.LEADS)),
-                         ({'min_leads': 2}, (base.LAGS, max(base.LEADS, 2))), ({'lags': 0, 'min_lags': 9}, (0, base.LEADS))):
+                         ({'min_leads': 2}, (base.LAGS, max(base.LEADS, 2))), ({'lags': 0, 'min_lags': 9}, (0, base.LEADS)),
+                         ({'lags': np.int64(5)}, (5, base.LEADS)), ({'leads': np.int32(4), 'lags': np.uint8(0)}, (0, 4))):
             for hints in (True, False):
                 M2 = fsic.build_model(symbols, with_type_hints=hints, **kw)
                 if (M2.LAGS, M2.LEADS) != want:
@@ -158,14 +159,15 @@ def _work(item) -> Dict[str, Any]:
 
         def recording(s):
             calls.append(s.name)
-            return f'pass  # <<{s.name}>>'
+            # (the braces spell the template's own field names: inserted code is never formatted again)
+            return f'pass  # <<{s.name}>>' + ' {errors} {lags} {leads} {parameters} {endogenous} {exogenous} {equations} {{}} {0}'
 
         code = fsic.build_model_definition(symbols, converter=recording)
         want_calls = [s.name for s in symbols if s.type in (T.ENDOGENOUS, T.VERBATIM) and s.equation is not None and s.code is not None]
         if calls != want_calls:
             out['bad'].append({'what': f'converter called for {calls}, expected once per equation symbol in order {want_calls}', 'replayed': True,
                                'replay': {'text': text}})
-        pos = [code.find(f'        pass  # <<{n}>>') for n in want_calls]
+        pos = [code.find(f'        pass  # <<{n}>>' + ' {errors} {lags} {leads} {parameters} {endogenous} {exogenous} {equations} {{}} {0}') for n in want_calls]
         if any(p < 0 for p in pos) or pos != sorted(pos) or code.count('# <<') != len(want_calls):
             out['bad'].append({'what': 'converter output not inserted verbatim, once each, in symbol order', 'replayed': True, 'replay': {'text': text}})
     if twin == 'plus_one':
